@@ -139,7 +139,7 @@ def gen_plan(prop, run_seed, tier):
             st["kind"] = s.choice(["mixed", "obs_no_mask", "no_obs", "mask_no_obs"])
         if op == "perm_ctor":
             u = s.random()
-            st["extra"] = "huge" if u < 0.025 else (u < 0.4)
+            st["extra"] = "huge" if u < 0.05 else (u < 0.4)
         steps.append(st)
     plan["steps"] = steps
     return plan
